@@ -147,7 +147,7 @@ pub fn execute_with(prop: &PropDef, cfg: &Cfg, evs: &[Ev], mut oracle: Box<dyn O
                 Verdict::Violation(Violation {
                     property: prop.id.into(),
                     oracle: "bounded_allocation".into(),
-                    signature: format!("capacity-overflow:{}", p.file),
+                    signature: format!("capacity-overflow:{}", p.file.rsplit("/rust/").next().unwrap_or(&p.file)),
                     step: p.step,
                     detail: format!("{} asked for more than isize::MAX bytes ({}:{}: {})", p.context, p.file, p.line, p.message),
                 })
